@@ -57,6 +57,10 @@ type sep struct {
 	// the session constants (key, frozen digests) of the blob this endpoint's stream was last rebuilt
 	// from: what every later export of the session must carry again (C15 oracle)
 	imported *blobFields
+	// protected frames this endpoint's stream has put on the wire / has accepted since its key was
+	// installed, as the harness saw them happen (C15 oracle: "has not yet exchanged a protected frame in
+	// both directions"); a stream rebuilt from a blob starts from what the blob's flags vouch for
+	protSent, protRecv int
 }
 
 // scrub overwrites a buffer the harness handed to (or got from) the library, as a careful caller does
@@ -232,6 +236,7 @@ func (w *sworld) describeP(e *sep, f refcodec.Frame, enc bool) (string, []byte) 
 	copy(nn[:], e.dir.BaseIV[:])
 	binary.BigEndian.PutUint32(nn[:4], o.NonceW0)
 	e.sent = append(e.sent, sentFrame{f: f, enc: true, hasIV: o.HadIV, opened: true, nonce: nn, keyID: e.keyID, opIdx: len(w.ops)})
+	e.protSent++
 	ivs := "iv=-"
 	if o.HadIV {
 		e.iv = e.dir.BaseIV
@@ -280,6 +285,7 @@ func (w *sworld) key(n string, id int) {
 		return
 	}
 	e.keyID, e.key = id, keyBytes(id)
+	e.protSent, e.protRecv = 0, 0
 	e.finalized = true
 	e.ivKnown = false
 	e.dir, _ = refcodec.NewDir(e.key, refcodec.Digest(e.clearSent, e.anySent), refcodec.Digest(e.clearRecv, e.anyRecv))
@@ -527,8 +533,13 @@ func (w *sworld) around(n string, f func(e *sep) (string, error)) error {
 	e := w.ep(n)
 	before := append([]byte{}, e.c.In...)
 	fin := e.finalized
+	prot := e.crypting()
 	_, err := f(e)
 	consumed := before[:len(before)-len(e.c.In)]
+	if err == nil && prot {
+		fr, _ := refcodec.ParseFrames(consumed)
+		e.protRecv += len(fr)
+	}
 	if err == nil && !fin && len(consumed) > 0 {
 		e.clearRecv = append(e.clearRecv, consumed...)
 		e.anyRecv = true
@@ -604,7 +615,11 @@ func (w *sworld) recvp(n string) ([]byte, error) {
 func (w *sworld) getsecret(n string) ([]byte, error) {
 	var d []byte
 	err := w.around(n, func(e *sep) (string, error) {
+		forced := e.key != nil && !e.crypting() // GetSecret switches decryption on for the one frame
 		x, err := e.s.GetSecret(bg)
+		if err == nil && forced {
+			e.protRecv++
+		}
 		d = []byte(x)
 		if err != nil {
 			w.log("getsecret "+n, "err "+errClass(err))
@@ -786,6 +801,7 @@ func (w *sworld) importBlobAround(n string, blob []byte, remote string) error {
 	e.finalized = true // an imported stream never feeds digests that matter again (see model)
 	if f, perr := parseBlob(blob); perr == nil {
 		e.imported = &blobFields{key: append([]byte{}, f.key...), fs: append([]byte{}, f.fs...), fr: append([]byte{}, f.fr...)}
+		e.protSent, e.protRecv = int(f.flags>>2&1), int(f.flags>>3&1)
 		e.key = append([]byte{}, f.key...)
 		e.keyID = int(binary.BigEndian.Uint32(f.key[28:]))
 		d, _ := refcodec.NewDir(e.key, [32]byte{}, [32]byte{})
